@@ -9,7 +9,8 @@ From TLV Require Import Base.Ops Model.Prox Proofs.ProxProofs Proofs.ProxProofsH
   Base.Tensor Model.Constraints Proofs.ConstraintsProofsKeys Model.ProxDispatch Proofs.ProxProofsDispatch
   Proofs.ProxProofsMore Proofs.ProxProofsMatrix Proofs.ProxProofsRun Proofs.ProxRunTransfer
   Base.RSum Proofs.ProxProofsSvt Proofs.ProxProofsSvtList Proofs.ProxProofsFirm2 Proofs.ProxProofsRunIdem Proofs.ProxProofsRunFirm
-  Proofs.ConstraintsProofsUni.
+  Proofs.ConstraintsProofsUni Proofs.ProxProofsIdem2 Proofs.ProxProofsSvtPerturb Proofs.ProxProofsSmoothNd
+  Model.ProxSvtGap Proofs.ProxProofsSvtGap Proofs.ProxSvtGapTransfer.
 Import ListNotations.
 Open Scope R_scope.
 
@@ -479,6 +480,141 @@ Theorem C12_svt_optimal_svd : forall (m n k : nat) (U : list (list R)) (s : list
 Proof. exact svt_list_optimal. Qed.
 Print Assumptions C12_svt_optimal_svd.
 
+(* ---- round 7: "projections are idempotent" for every projection of the property's list, end to end.
+   l1-ball operator: a column on or outside the ball, or without a zero entry (then the first application lands on the sphere |x|_1 = p),
+   is fixed by the second application; a column inside the ball WITH a zero entry is not (exact witness; same deliberately unfixed operator).
+   normalised sparsity: the second call asks tl.norm again; under the contract of both tape values it returns the first result.
+   unimodality_prox: P(P(v)) <> P(v) (exact witness).  C12_prun_idempotent_all / C12_proximal_operator_idempotent_all: the second call of
+   proximal_operator with the same keyword arguments (o' = the operator selected for it; only the norm tape may differ) returns the first result
+   for non-negativity, simplex (p > 0), monotonicity, hard sparsity, max-normalisation (non-zero tensor), normalised sparsity, the l1-ball operator
+   (each column on / outside the ball or without zeros) and the identity. *)
+Theorem C12_l1ball_nonzero_feasible : forall p v, 0 < p -> v <> [] -> Forall (fun b => b <> 0) v -> l1n Rops (soft_sparsity_prox Rops p v) = p.
+Proof. exact l1ball_nonzero_feasible. Qed.
+Print Assumptions C12_l1ball_nonzero_feasible.
+Theorem C12_l1ball_idempotent : forall p v, 0 < p -> (p <= l1n Rops v \/ (v <> [] /\ Forall (fun b => b <> 0) v)) ->
+  soft_sparsity_prox Rops p (soft_sparsity_prox Rops p v) = soft_sparsity_prox Rops p v.
+Proof. exact l1ball_idempotent. Qed.
+Print Assumptions C12_l1ball_idempotent.
+Theorem C12_l1ball_idempotent_refuted : exists (p : Q) (v : list Q),
+  Qle_bool (l1n Qops v) p = true /\
+  (let P := soft_sparsity_prox Qops p in
+   forallb (fun xy : Q * Q => Qeq_bool (fst xy) (snd xy)) (combine (P (P v)) (P v)) = false).
+Proof. exact l1ball_idempotent_refuted. Qed.
+Print Assumptions C12_l1ball_idempotent_refuted.
+Theorem C12_unimodal_idempotent_refuted : exists (v : list Q),
+  unimodalb Qops v = true /\
+  (let P := fun w => hd [] (unimodality_cols Qops [w]) in
+   forallb (fun xy : Q * Q => Qeq_bool (fst xy) (snd xy)) (combine (P (P v)) (P v)) = false).
+Proof. exact unimodal_idempotent_refuted. Qed.
+Print Assumptions C12_unimodal_idempotent_refuted.
+Theorem C12_normalized_sparsity_idempotent_tape : forall s s' k v, 0 < s -> s * s = sumsq Rops (hard_thresholding Rops k v) ->
+  0 < s' -> s' * s' = sumsq Rops (hard_thresholding Rops k (normalized_sparsity_with Rops s k v)) ->
+  normalized_sparsity_with Rops s' k (normalized_sparsity_with Rops s k v) = normalized_sparsity_with Rops s k v.
+Proof. exact normalized_sparsity_idempotent2. Qed.
+Print Assumptions C12_normalized_sparsity_idempotent_tape.
+Theorem C12_prun_idempotent_all : forall o o' nr nc X, (1 <= nr)%nat -> (1 <= nc)%nat -> rect nr nc X -> idem_side2 o o' X ->
+  prun Rops o' (prun Rops o X) = prun Rops o X.
+Proof. exact prun_idempotent2. Qed.
+Print Assumptions C12_prun_idempotent_all.
+Theorem C12_proximal_operator_idempotent_all : forall n_const order specs aux aux' nr nc X Y o o',
+  (1 <= nr)%nat -> (1 <= nc)%nat -> rect nr nc X ->
+  selected_pop Q2R n_const order specs aux = Ok o -> selected_pop Q2R n_const order specs aux' = Ok o' -> idem_side2 o o' X ->
+  proximal_operator Rops Q2R n_const order specs aux X = Ok Y -> proximal_operator Rops Q2R n_const order specs aux' Y = Ok Y.
+Proof. exact proximal_operator_idempotent2. Qed.
+Print Assumptions C12_proximal_operator_idempotent_all.
+
+(* ---- round 7: svd_thresholding WITHOUT the exact contract of the SVD oracle (Proofs/ProxProofsSvtPerturb.v; fro2f A B = |A - B|_F^2).
+   C12_svt_certificate: for ANY X, M, any W in the spectral unit ball and t >= 0, every competitor Z has
+     t <W, X> + |X - M|^2 / 2 - |M - X - t W|^2 / 2 <= t |Z|_nuc + |Z - M|^2 / 2   (a dual certificate bounds the suboptimality of X).
+   C12_approx_bessel / C12_approx_spectral_bound: if the Gram matrix of the columns of U and of the rows of V is within e of the identity
+     ENTRYWISE (aocols: the clause the per-run check decides on the recorded LAPACK answer with e = 1e-9) and k e < 1, then
+     (1 - k e) U diag(g) V has spectral norm <= t for 0 <= g <= t.
+   C12_svt_perturbed: hence, for X = U diag(sf) V and the certificate W = (1 - k e) U diag(w) V with ANY weights 0 <= w <= 1, the bound above
+     holds; nothing is assumed about M (the reconstruction error of the tape enters through the residual |M - X - t W|).
+   C12_approx_nuclear_bound: (1 + e) sum a is an upper bound of the nuclear norm of U diag(a) V, so the objective the code's X attains exceeds the
+     minimum by at most  t ((1 + e) sum sf - <W, X>) + |M - X - t W|_F^2 / 2,  an expression in the tape alone.
+   C12_svt_perturbed_exact: with the exact contract (e = 0, w = g / t) that expression is 0: the optimality theorem C12_svt_optimal is the limit case. *)
+Theorem C12_svt_certificate : forall (m n : nat) (X M W Z : nat -> nat -> R) (t nu : R), 0 <= t -> spec_le m n 1 W -> nuc_le m n Z nu ->
+  t * frob m n W X + fro2f m n X M / 2 - fro2f m n M (fun i j => X i j + t * W i j) / 2 <= t * nu + fro2f m n Z M / 2.
+Proof. exact svt_certificate. Qed.
+Print Assumptions C12_svt_certificate.
+Theorem C12_approx_bessel : forall rows cols e A u, aocols rows cols e A ->
+  (1 - INR cols * e) * rsum cols (fun l => (rsum rows (fun i => u i * A i l))^2) <= rsum rows (fun i => (u i)^2).
+Proof. exact abessel. Qed.
+Print Assumptions C12_approx_bessel.
+Theorem C12_approx_spectral_bound : forall (m n k : nat) (U V : nat -> nat -> R) (e : R),
+  aocols m k e U -> aocols n k e (fun j l => V l j) -> INR k * e < 1 ->
+  forall g t, 0 <= t -> (forall l, (l < k)%nat -> 0 <= g l <= t) -> spec_le m n t (fun i j => (1 - INR k * e) * compose k U g V i j).
+Proof. exact aspec_le. Qed.
+Print Assumptions C12_approx_spectral_bound.
+Theorem C12_svt_perturbed : forall (m n k : nat) (U V : nat -> nat -> R) (e : R),
+  aocols m k e U -> aocols n k e (fun j l => V l j) -> INR k * e < 1 ->
+  forall (M : nat -> nat -> R) (sf w : nat -> R) (t : R), 0 <= t -> (forall l, (l < k)%nat -> 0 <= w l <= 1) ->
+  forall (Z : nat -> nat -> R) (nu : R), nuc_le m n Z nu ->
+  let X := compose k U sf V in let W := fun i j => (1 - INR k * e) * compose k U w V i j in
+  t * frob m n W X + fro2f m n X M / 2 - fro2f m n M (fun i j => X i j + t * W i j) / 2 <= t * nu + fro2f m n Z M / 2.
+Proof. exact svt_perturbed. Qed.
+Print Assumptions C12_svt_perturbed.
+Theorem C12_approx_nuclear_bound : forall m n k U V e a, aocols m k e U -> aocols n k e (fun j l => V l j) ->
+  (forall l, (l < k)%nat -> 0 <= a l) -> nuc_le m n (compose k U a V) ((1 + e) * rsum k a).
+Proof. exact anuc_compose. Qed.
+Print Assumptions C12_approx_nuclear_bound.
+Theorem C12_svt_perturbed_exact : forall m n k U V s sf g w t, ocols m k U -> ocols n k (fun j l => V l j) -> 0 < t ->
+  (forall l, (l < k)%nat -> s l = sf l + g l) -> (forall l, (l < k)%nat -> g l = t * w l) ->
+  (forall l, (l < k)%nat -> sf l * g l = t * sf l) ->
+  let X := compose k U sf V in let W := fun i j => (1 - INR k * 0) * compose k U w V i j in let M := compose k U s V in
+  frob m n W X = rsum k sf /\ fro2f m n M (fun i j => X i j + t * W i j) = 0.
+Proof. exact svt_perturbed_exact. Qed.
+Print Assumptions C12_svt_perturbed_exact.
+
+(* ---- round 7: the same at the level of the list model and of the executed rational instance (Model/ProxSvtGap.svt_gap: an arithmetic expression in
+   the recorded answer (U, s, V), the threshold and the input M).  For ANY recorded answer whose singular vectors are orthonormal to within e
+   entrywise (k e < 1) and s >= 0 - nothing is assumed about M = U diag(s) V - the matrix X the model returns satisfies
+     t |X|_nuc + |X - M|^2 / 2 <= t (1 + e) sum soft_t(s) + |X - M|^2 / 2 <= t |Z|_nuc + |Z - M|^2 / 2 + svt_gap e U s V t M     for every matrix Z.
+   The per-run correspondence evaluates svt_gap exactly in Q on every svd_thresholding case (e = 1e-9) and requires it to be at most
+   1e-7 (t sum soft_t(s) + |M|^2 / 2): that is the tolerance the check implies for the optimality of the returned matrix. *)
+Theorem C12_svt_output_nuclear_bound : forall (m n k : nat) (U : list (list R)) (s : list R) (V : list (list R)) (e t : R),
+  (1 <= k)%nat -> rect m k U -> length s = k -> rect k n V -> aocols m k e (mfun U) -> aocols n k e (fun j l => mfun V l j) ->
+  Forall (fun x => 0 <= x) s -> 0 <= t ->
+  nuc_le m n (mfun (svd_thresholding_with Rops U s V t)) ((1 + e) * lsum Rops (soft_thresholding Rops t s)).
+Proof. exact svt_output_nuc_bound. Qed.
+Print Assumptions C12_svt_output_nuclear_bound.
+Theorem C12_svt_gap_sound : forall (m n k : nat) (U : list (list R)) (s : list R) (V M : list (list R)) (e t : R),
+  (1 <= k)%nat -> rect m k U -> length s = k -> rect k n V -> rect m n M ->
+  aocols m k e (mfun U) -> aocols n k e (fun j l => mfun V l j) -> INR k * e < 1 -> Forall (fun x => 0 <= x) s -> 0 <= t ->
+  forall (Z : nat -> nat -> R) (nu : R), nuc_le m n Z nu ->
+  t * ((1 + e) * lsum Rops (soft_thresholding Rops t s)) + fro2 m n (mfun (svd_thresholding_with Rops U s V t)) (mfun M) / 2
+  <= t * nu + fro2 m n Z (mfun M) / 2 + svt_gap Rops e U s V t M.
+Proof. exact svt_gap_sound. Qed.
+Print Assumptions C12_svt_gap_sound.
+Theorem C12_svt_gap_exec_sound : forall (m n k : nat) (U : list (list Q)) (s : list Q) (V M : list (list Q)) (e t : Q),
+  (1 <= k)%nat -> rect m k (map (map Q2R) U) -> length s = k -> rect k n (map (map Q2R) V) -> rect m n (map (map Q2R) M) ->
+  aocols m k (Q2R e) (mfun (map (map Q2R) U)) -> aocols n k (Q2R e) (fun j l => mfun (map (map Q2R) V) l j) -> INR k * Q2R e < 1 ->
+  Forall (fun x => 0 <= x) (map Q2R s) -> 0 <= Q2R t ->
+  forall (Z : nat -> nat -> R) (nu : R), nuc_le m n Z nu ->
+  let X := mfun (map (map Q2R) (svd_thresholding_with Qops U s V t)) in
+  nuc_le m n X ((1 + Q2R e) * lsum Rops (soft_thresholding Rops (Q2R t) (map Q2R s))) /\
+  Q2R t * ((1 + Q2R e) * lsum Rops (soft_thresholding Rops (Q2R t) (map Q2R s))) + fro2 m n X (mfun (map (map Q2R) M)) / 2
+  <= Q2R t * nu + fro2 m n Z (mfun (map (map Q2R) M)) / 2 + Q2R (svt_gap Qops e U s V t M).
+Proof. exact svt_gap_exec_sound. Qed.
+Print Assumptions C12_svt_gap_exec_sound.
+
+(* ---- round 7: smoothness_prox / proximal_operator(smoothness=t) on a tensor with three or more dimensions, the code as it is
+   (Model/ProxDispatch.smooth_nd: NumPy's stacked solve of the shape[0] x shape[0] system against the shape[-2] x shape[-1] slices): the call raises
+   exactly when shape[-2] <> shape[0]; otherwise the result is, slice by slice and column by column, the solution of the coded tridiagonal system and
+   the minimiser of the smoothness objective ALONG AXIS -2 of the slice (for three dimensions axis 1, not axis 0: the repair candidate
+   build/fix_candidates/C12_smoothness_ndim.* is not applied) *)
+Theorem C12_smooth_nd_raises_iff : forall F (Op : fops F) t d0 p rows, smooth_nd Op t d0 p rows = Err <-> p <> d0.
+Proof. exact @smooth_nd_raises_iff. Qed.
+Print Assumptions C12_smooth_nd_raises_iff.
+Theorem C12_smooth_nd_sound : forall t d0 p q (slices : list (list (list R))) Y, 0 <= t -> (1 <= p)%nat -> (1 <= q)%nat ->
+  Forall (rect p q) slices -> smooth_nd Rops t d0 p (concat slices) = Ok Y ->
+  p = d0 /\ Y = concat (smooth_slices Rops t slices) /\
+  Forall2 (fun Ys Xs => per_column (fun y v => sm_apply Rops t 0 y = v /\ forall z, length z = length v -> smooth_obj t y v <= smooth_obj t z v) Ys Xs)
+          (smooth_slices Rops t slices) slices.
+Proof. exact smooth_nd_sound. Qed.
+Print Assumptions C12_smooth_nd_sound.
+
 (* ---- deliberately unfixed operators: refutation (exact rational witness on the executed instance) + what holds *)
 Theorem C12_l1ball_refuted : exists (p : Q) (v : list Q),
   Qle_bool (l1n Qops v) p = true /\ (dist2 Qops v v < dist2 Qops (soft_sparsity_prox Qops p v) v)%Q.
@@ -583,3 +719,25 @@ Example C12_nonvacuous_svd_contract :
   Forall (fun x => 0 <= x) s /\ (forall i j, (i < 2)%nat -> (j < 2)%nat -> mfun M i j = compose 2 (mfun U) (vfun s) (mfun V) i j) /\
   frob 2 2 (mfun U) (mfun U) = INR 2.
 Proof. exact svd_contract_instance. Qed.
+
+(* round 7: a matrix whose columns are only approximately orthonormal satisfies aocols (and k e < 1) but not ocols; the side condition of
+   C12_prun_idempotent_all for normalised sparsity is reachable through the dispatch (the two selected operators differ in the tape only) *)
+Example C12_nonvacuous_approx_orthonormal :
+  let A := fun i j : nat => match i, j with O, O => 1 | O, S O => 1 / 100 | S O, S O => 1 | _, _ => 0 end in
+  aocols 2 2 (1 / 50) A /\ ~ ocols 2 2 A /\ INR 2 * (1 / 50) < 1.
+Proof. exact aocols_instance. Qed.
+Example C12_nonvacuous_second_tape : forall n_const order specs aux aux' k s,
+  selected_pop Q2R n_const order specs aux = Ok (PNormSparsity k s) ->
+  selected_pop Q2R n_const order specs aux' = Ok (PNormSparsity k aux') /\ s = aux.
+Proof. exact selected_pop_aux_normsp. Qed.
+Example C12_nonvacuous_smooth_nd :
+  smooth_nd Qops 1%Q 2 2 [[1; 2]; [3; 4]; [5; 6]; [7; 8]]%Q
+    = Ok (concat (smooth_slices Qops 1%Q [[[1; 2]; [3; 4]]; [[5; 6]; [7; 8]]]%Q)) /\
+  smooth_nd Qops 1%Q 3 1 [[1; 2]; [3; 4]; [5; 6]]%Q = Err.
+Proof. exact smooth_nd_instance. Qed.
+(* the gap bound computes: an exact 2 x 2 tape gives a gap of the order of e; a tape whose U is only approximately orthogonal still gives a finite bound *)
+Example C12_nonvacuous_svt_gap :
+  Qle_bool (svt_gap Qops (1 # 1000000000) [[1; 0]; [0; 1]]%Q [3; 1]%Q [[0; 1]; [1; 0]]%Q 2%Q [[0; 3]; [1; 0]]%Q) (1 # 10000000) = true /\
+  Qle_bool 0 (svt_gap Qops (1 # 1000000000) [[1; 0]; [0; 1]]%Q [3; 1]%Q [[0; 1]; [1; 0]]%Q 2%Q [[0; 3]; [1; 0]]%Q) = true /\
+  Qle_bool (svt_gap Qops (1 # 50) [[1; (1 # 100)]; [0; 1]]%Q [3; 1]%Q [[0; 1]; [1; 0]]%Q 2%Q [[(1 # 100); 3]; [1; 0]]%Q) 1 = true.
+Proof. repeat split; vm_compute; reflexivity. Qed.
